@@ -258,6 +258,9 @@ func newWorld(s *simkit.Sim, sc *Scenario) (*World, error) {
 	for _, k := range pool {
 		w.allKeys = append(w.allKeys, []byte(k))
 	}
+	if sc.Knobs.InnerSplits {
+		w.Net.Topo = &simkit.InnerSplitTopo{Cl: w.Cl, Keys: w.allKeys, H: simkit.NewHasher(s.Seed, "innersplit"), Always: true}
+	}
 	return w, nil
 }
 
